@@ -484,8 +484,8 @@ theorem setEndNode_cases (s : Reg) (l n : Name) (isStart : Bool) :
       simp only [AL.has_eq, hn, Option.isSome_some, Bool.not_true, Bool.false_eq_true, if_false,
         repaired_setterKeepsSharedEnd, Bool.true_and, decide_eq_true_eq, removeUsage_repaired]
       by_cases hc : (if isStart = true then i.start else i.end_) = (if isStart = true then i.end_ else i.start)
-      · simp [hc, removeUsageO]
-      · simp [hc, removeUsageO]
+      · cases isStart <;> simp_all [removeUsageO]
+      · cases isStart <;> simp_all [removeUsageO]
 
 def setSpeedPatternR (s : Reg) (l : Name) (pat : Option Name) (i : LinkInfo) : Reg :=
   { (addUsage? (removeUsageO s .pattern i.pat (l, .pump)) .pattern pat (l, .pump)) with
